@@ -184,7 +184,7 @@ def reasonOf : ShutKind → String
   | .shutdown => "spindown"
 
 def disarmShutdownTimers (s : State) : State :=
-  { s with timers := s.timers.filter fun t => t != "rtDeadline" && t != "agDeadline" && t != "grace",
+  { s with timers := s.timers.filter fun t => t != .rtDeadline && t != .agDeadline && t != .grace,
            rtDeadlineFired := false, agDeadlineFired := false, graceFired := false }
 
 /-- HandleReset returned: `rapidCtx.Clear()` = `reinitialize` runs (deferred in SandboxContext.Reset);
@@ -198,7 +198,7 @@ def afterReset (s : State) (from_ : Nat) : State :=
                       agentReady := s.initFlow.agentReady.clear, restoreReady := s.initFlow.restoreReady.clear },
                     invFlow := { runtimeReady := s.invFlow.runtimeReady.clear, runtimeResponse := s.invFlow.runtimeResponse.clear,
                                  agentReady := s.invFlow.agentReady.clear } }
-  { s with timers := s.timers ++ [s!"resetTail:{from_}"] }
+  { s with timers := s.timers ++ [.resetTail from_] }
 
 /-- `Server.Clear()`; phase idle; `Reset()` returns; `s.Release()`; then whoever asked continues -/
 def resetTail (s : State) (from_ : Nat) : State :=
@@ -219,7 +219,7 @@ def finishShutdown (s : State) (k : ShutKind) (from_ : Nat) : State :=
 
 /-- requests carry who asked; the running shutdown keeps it here -/
 def enterGrace (s : State) (k : ShutKind) : State :=
-  { s with orch := .sGrace k, timers := s.timers ++ ["grace"] }
+  { s with orch := .sGrace k, timers := s.timers ++ [.grace] }
 
 /-- what `shutdownAgents` does for one external extension -/
 def shutdownOne (s : State) (a : Agent) : State :=
@@ -246,7 +246,7 @@ def shutdownBody (s : State) (k : ShutKind) : State :=
       | none => s
     enterGrace s k
   else
-    let s := { s with timers := s.timers ++ ["rtDeadline", "agDeadline"] }
+    let s := { s with timers := s.timers ++ [.rtDeadline, .agDeadline] }
     match procByFull s (rtFull s) with
     | some p => if p.chanCreated then { (supTerm s p.full) with orch := .sRuntime k } else shutdownAgents s k
     | none => shutdownAgents s k
